@@ -321,7 +321,11 @@ func (f *fx) loopModKeys(li *loopInfo) (keys map[string]bool, all bool) {
 				if a {
 					all = true
 				}
+				direct := strings.HasPrefix(calleeKeyOf(x.Common()), "(*sync.RWMutex).")
 				for _, k := range ks {
+					if k == "X:Held" && !direct {
+						continue // lock users restore the lock state (proved: ensures Held == old(Held))
+					}
 					keys[k] = true
 				}
 			}
